@@ -170,6 +170,23 @@ theorem prop_ok (p : PKind) : ItemOK (.prop p) := by
     by_cases hf : falseCase B = true <;> simp [hf]
   · exact closeFor_new (closeGE_of_below (hB.mono (Nat.le_succ k))) hB
 
+theorem imp_ok (src : List String) (nd : Option String) : ItemOK (.imp src nd) := by
+  intro k s B P fe hB hP h1 h2 _
+  have hs := step_imp (x := src) (nd := nd) h1 h2
+  refine ⟨{ s with parents := (k, [.nm "{import}"]) :: P, state := B }, ?_, closeGE_of_below hB, ?_, fun q _ => ?_⟩
+  · simp only [Item.render, run, hs, Item.sem]
+    by_cases hf : falseCase B = true <;> simp [hf]
+  · simp only [popGE, Nat.le_refl, if_true]; exact popGE_of_below hP
+  · exact closeFor_new (closeGE_of_below (hB.mono (Nat.le_succ k))) hB
+
+theorem unit_ok (n : String) (b : Bool) : ItemOK (.unit n b) := by
+  intro k s B P fe hB _ h1 h2 _
+  have hs := step_unit (x := [n]) (b := b) h1
+  refine ⟨{ s with state := B }, ?_, closeGE_of_below hB, h2, fun q _ => ?_⟩
+  · simp only [Item.render, run, hs, Item.sem]
+    cases b <;> by_cases hf : falseCase B = true <;> simp [hf]
+  · exact closeFor_new (closeGE_of_below (hB.mono (Nat.le_succ k))) hB
+
 theorem group_ok (n : String) (e : Nat) (body : Items) (ih : ItemsOK body) : ItemOK (.group n e body) := by
   intro k s B P fe hB hP h1 h2 _
   have hs := step_group (x := [n]) h1 h2
@@ -269,6 +286,8 @@ mutual
   theorem item_ok : (i : Item) → ItemOK i
     | .node n m v props => node_ok n m v props
     | .prop p => prop_ok p
+    | .imp src nd => imp_ok src nd
+    | .unit n b => unit_ok n b
     | .group n e body => group_ok n e body (items_ok body)
     | .block pfx c e body more => block_ok pfx c e body more (items_ok body) (chain_ok more)
   theorem items_ok : (is : Items) → ItemsOK is
@@ -309,6 +328,10 @@ mutual
       simpa [Item.occ, Item.sem, Function.comp_def] using this
     | .prop p, pre, sel => by
       cases h : sel.all id <;> simp [Item.occ, Item.sem, selectedOnly, h]
+    | .imp src nd, pre, sel => by
+      cases h : sel.all id <;> simp [Item.occ, Item.sem, selectedOnly, h]
+    | .unit n b, pre, sel => by
+      cases b <;> cases h : sel.all id <;> simp [Item.occ, Item.sem, selectedOnly, h]
     | .group n e body, pre, sel => by
       simp only [Item.occ, Item.sem]; exact Items.occ_sem body _ sel
     | .block pfx c e body more, pre, sel => by
